@@ -53,7 +53,7 @@ static Wire c14(Reader& r) {
     case 7: { SparseMatrix A=getSparse(r); return guarded([&]{ return outSparse(A.transpose()); }); }
     case 8: { SparseMatrix A=getSparse(r); size_t i=r.n(); return guarded([&]{ return outVec(A.getlin(i)); }); }
     case 9: { SparseMatrix A=getSparse(r); Vector v=getVec(r); size_t i=r.n(); return guarded([&]{ A.setlin(v,i); return outSparse(A); }); }
-    case 10:{ SparseMatrix A=getSparse(r); double f=A.frobenius_norm(); return Wire{ST_OK,(ll)std::llround(f*f)}; }
+    case 10:{ SparseMatrix A=getSparse(r); double f=A.frobenius_norm(); if (!std::isfinite(f)) return Wire{ST_OK,(ll)-1}; /* a norm is finite for finite entries; the model's sum of squares is never negative */ return Wire{ST_OK,(ll)std::llround(f*f)}; }
     case 11:{ SparseMatrix A=getSparse(r); return guarded([&]{ return outDense(Matrix(A)); }); }
     case 12:{ Matrix M=getDense(r); SparseMatrix A=getSparse(r); return guarded([&]{ return outDense(M*A); }); }
     case 13:{ SparseMatrix A=getSparse(r); size_t i=r.n(), j=r.n(); if (i>=A.nlin()) throw Reader::Malformed(); const FastSparseMatrix F(A); return Wire{ST_OK,exact(F(i,j))}; }
